@@ -30,7 +30,7 @@ def bounds(tier):
 
 
 def goals(tier):
-    return ["module-typing", "vector-typing", "assembly-k3", "assembly-rotated", "registry-typing", "palindromic-overhang", "rejected-both-strands", "ambiguity-code-in-record"]
+    return ["module-typing", "vector-typing", "assembly-k3", "assembly-rotated", "registry-typing", "palindromic-overhang", "rejected-both-strands", "ambiguity-code-in-record", "positions-of-the-reverse-complemented-target"]
 
 
 def typed(cls, rec):
@@ -63,6 +63,8 @@ def check_typing(st, fam, cls, s, rots, scn_base, ways=("method", "string")):
             st.violation(fam, "forward-raises-" + type(e).__name__, dict(scn_base, rotation=r), "values", str(e)[:100])
             continue
         exp = expected_rc(fwd)
+        if fwd[0] is True and scn_base.get("positions"):
+            check_positions(st, fam, cls, sr, fwd, dict(scn_base, rotation=r, way="positions"))
         for way in ways:
             scn = dict(scn_base, rotation=r, way=way)
             try:
@@ -86,6 +88,40 @@ def check_typing(st, fam, cls, s, rots, scn_base, ways=("method", "string")):
                 else:
                     cause = "target-body-not-reverse-complemented"
                 st.violation(fam, cause, scn, exp, got)
+
+
+def check_positions(st, fam, cls, sr, fwd, scn):
+    """The same statement on positions instead of letters: the record carries a per-letter index track (and features of every
+    flavour); the target of the reverse-complemented record must hold exactly the nucleotides the statement names, reversed."""
+    n = len(sr)
+    rec = gen.contained(sr, "annotated", "f")
+    try:
+        e = cls(rec)
+        if not e.is_valid():
+            st.violation(fam, "annotated-record-rejected", scn, "valid", "invalid")
+            return
+        ft = e.target_sequence()
+        fidx = list(ft.letter_annotations.get("idx", []))
+        r = cls(rec.reverse_complement())
+        if not r.is_valid():
+            st.violation(fam, "reverse-complement-of-annotated-record-rejected", scn, "valid", "invalid")
+            return
+        rt = r.target_sequence()
+        ridx = list(rt.letter_annotations.get("idx", []))
+    except Exception as ex:
+        st.violation(fam, "annotated-record-raises-" + type(ex).__name__, scn, "values", str(ex)[:120])
+        return
+    st.scenario("positions", None, nodes=0, calls=4)
+    st.nontrivial += 1
+    st.goal("positions-of-the-reverse-complemented-target")
+    ovs, ove, t = fwd[1], fwd[2], fwd[3]
+    if len(fidx) != len(t) or str(ft.seq).upper() != t.upper():
+        st.violation(fam, "annotated-record-reports-another-target", scn, t, [str(ft.seq), fidx])
+        return
+    ove_pos = [(fidx[-1] + 1 + i) % n for i in range(len(ove))]
+    exp = ove_pos[::-1] + fidx[len(ovs):][::-1]
+    if ridx != exp:
+        st.violation(fam, "reverse-complemented-target-holds-other-nucleotides", scn, exp, ridx)
 
 
 def rc_graph_ok(scn):
@@ -169,8 +205,8 @@ def run_unit(unit, st, tier):
                 st.filtered += 1
                 continue
             vec, mods = asm.pieces_to_plasmids(scn)
-            check_typing(st, "typing", M, mods[0], range(len(mods[0])), dict(family="typing", enz=enz, kind="module", seq=mods[0]))
-            check_typing(st, "typing", V, vec, range(len(vec)), dict(family="typing", enz=enz, kind="vector", seq=vec))
+            check_typing(st, "typing", M, mods[0], range(len(mods[0])), dict(family="typing", enz=enz, kind="module", seq=mods[0], positions=True))
+            check_typing(st, "typing", V, vec, range(len(vec)), dict(family="typing", enz=enz, kind="vector", seq=vec, positions=True))
             st.goal("module-typing")
             st.goal("vector-typing")
             if lens is None and enz in ("BsaI", "BbsI", "BspQI", "FokI", "BccI"):
@@ -251,7 +287,8 @@ def replay(scn, sub, st):
         M, V = gen.generic_classes(scn["enz"])
         cls = M if scn["kind"] == "module" else V
         gen.prime([cls])
-        check_typing(st, "typing", cls, scn["seq"], [scn["rotation"]], {k: v for k, v in scn.items() if k not in ("rotation", "way")}, ways=(scn["way"],))
+        check_typing(st, "typing", cls, scn["seq"], [scn["rotation"]], {k: v for k, v in scn.items() if k not in ("rotation", "way")},
+                     ways=() if scn["way"] == "positions" else (scn["way"],))
     elif scn.get("family") == "registry":
         row = regs.by_id(scn["reg"], scn["id"])
         cls = gen.class_by_name(scn["cls"])
